@@ -94,6 +94,9 @@ func runReplay(c *vh.Ctx, m *vh.Model, file string) {
 		}
 		num := func(k string) int { f, _ := rp[k].(float64); return int(f) }
 		runCrashPoint(c, ch, 0, cache, cname, num("crash_in_block")-1, num("after_writes"), max(num("batch_blocks"), 1), want)
+		if cname == "archive" && num("crash_in_block") == len(ch.blocks) {
+			partCrashScan(c, ch, 0)
+		}
 	}
 	// offending block(s): offered on their parent to a fresh node (cold copy, mirrored with the same
 	// objects, and once more after a pass through a transaction pool)
